@@ -340,15 +340,75 @@ Proof.
   - unfold smap_at. now rewrite Es.
 Qed.
 
+
+(* ---- the final states stored again by Shutdown once the monitors are gone (repo fix for C06) ---- *)
+
+Lemma overlay_length f m : length (overlay f m) = length m.
+Proof. revert m; induction f as [|[v|] f IH]; intros [|x m]; cbn [overlay length]; auto. Qed.
+
+Lemma overlay_get f m i :
+  get None (overlay f m) i =
+  match get None f i with Some v => if Nat.ltb i (length m) then Some v else None | None => get None m i end.
+Proof.
+  unfold get. revert m i; induction f as [|o f IH]; intros m i.
+  - cbn [overlay]. destruct i; reflexivity.
+  - destruct m as [|x m].
+    + assert (E : overlay (o :: f) [] = []) by (destruct o; reflexivity). rewrite E.
+      destruct (nth i (o :: f) None); destruct i; reflexivity.
+    + destruct o as [v|]; cbn [overlay]; destruct i as [|i]; cbn [nth length]; try reflexivity.
+      * change (S i <? S (length m)) with (i <? length m). apply IH.
+      * change (S i <? S (length m)) with (i <? length m). apply IH.
+Qed.
+
+Lemma overlay_keeps_some f m i : get None m i <> None -> get None (overlay f m) i <> None.
+Proof.
+  intros H. rewrite overlay_get. destruct (get None f i); [|exact H].
+  assert (L : i < length m) by (apply (get_nondefault_lt None); exact H).
+  apply Nat.ltb_lt in L. rewrite L. discriminate.
+Qed.
+
+Definition dead (m : mon_pc) : Prop := m = MoDone \/ m = MoAbsent.
+
+Lemma P_dead' m q v cu : dead m -> P m q v cu.
+Proof. intros [-> | ->]; constructor; cbn; intros; try discriminate; try contradiction. Qed.
+
+(* once the state-monitor manager has left, every monitor is gone for good *)
+Definition InvStm (s : state) : Prop := stm_done s = true -> forall i, dead (mon_at s i).
+
+Lemma InvStm_step c s l s' : InvStm s -> step c s l = Some s' -> InvStm s'.
+Proof.
+  intros IS H. unfold step in H.
+  destruct l; cbn [step0] in H; unfold start_shutdown, store_state in H;
+    step_cases H; inversion H; subst; clear H; unfold InvStm, mon_at in *; simp_st.
+  all: try exact IS.
+  all: try (intros T k; match goal with E : get MoAbsent (mon _) ?i = _ |- _ =>
+              pose proof (IS T i) as D; rewrite E in D; destruct D as [D|D]; discriminate D end).
+  all: try (intros _ k; destruct (get_mark_mon (mon s) k) as [E|E]; [right|left]; exact E).
+  all: try (intros T; match goal with E : negb (stm_done _) && _ = true |- _ =>
+              apply andb_true_iff in E as [E _]; apply negb_true_iff in E; congruence end).
+Qed.
+
+Lemma InvStm_init c : InvStm (init c).
+Proof.
+  unfold InvStm, mon_at, init, any_spec. cbn [stm_done mon]. intros H i. apply negb_true_iff in H.
+  unfold get. revert i. induction (specs c) as [|r l IH]; intros i.
+  - right. destruct i; reflexivity.
+  - cbn [existsb] in H. apply orb_false_iff in H as [Hr Hl]. cbn [map]. rewrite Hr.
+    destruct i as [|i]; [right; reflexivity|]. cbn [nth]. apply IH. exact Hl.
+Qed.
+
+Lemma InvStm_reachable c s : reachable_sup c s -> InvStm s.
+Proof. apply sup_inv; [apply InvStm_init|apply InvStm_step]. Qed.
+
 Ltac frame_tac I :=
   eapply InvMon_frame; [exact I|reflexivity|reflexivity|reflexivity|reflexivity| |];
   [ unfold ctx_done; simp_st; first [exact (fun H => H) | intros _; reflexivity | intros H; rewrite ?H, ?orb_true_r; reflexivity]
   | intros ii Lii Hst; unfold rn_at; simp_st; first [exact (fun H => H) | revert ii Lii Hst; intros ii _ _; revert ii; apply ran_mono_upd; intros Hp; try contradiction;
                                   match goal with E : rn_at _ _ = _ |- _ => rewrite E; exact Logic.I end ] ].
 
-Lemma InvMon_step c s l s' : InvMon c s -> step c s l = Some s' -> InvMon c s'.
+Lemma InvMon_step c s l s' : InvStm s -> InvMon c s -> step c s l = Some s' -> InvMon c s'.
 Proof.
-  intros I H. unfold step in H. pose proof (im_len _ _ I) as (L1 & L2 & L3 & L4).
+  intros IS I H. unfold step in H. pose proof (im_len _ _ I) as (L1 & L2 & L3 & L4).
   destruct l; cbn [step0] in H; unfold start_shutdown, store_state in H;
     step_cases H; inversion H; subst; clear H.
   all: try (frame_tac I; fail).
@@ -374,6 +434,15 @@ Proof.
                 eapply (L_emit c s _ i x I); [assumption|reflexivity|reflexivity|reflexivity|reflexivity|reflexivity|];
                 rewrite H;
                 first [left; split; [exact Logic.I|reflexivity] | right; split; [intros X; exact X|reflexivity]] end end; fail).
+  (* ---- Shutdown stores the recorded final states again: wg is zero, so every monitor is gone ---- *)
+  - match goal with E : wg_zero _ = true |- _ => rename E into W end.
+    unfold wg_zero in W. apply andb_true_iff in W as [_ T].
+    constructor; simp_st.
+    + rewrite overlay_length. auto.
+    + intros k. unfold mon_at, pend, smap_at, cur_at. simp_st. apply P_dead'. apply (IS T k).
+    + intros k Hk. unfold ctx_done in *. simp_st. apply (im_done _ _ I k Hk).
+    + intros k Lk Hk. apply (im_absent _ _ I k Lk Hk).
+    + intros k Lk Hs Hr. unfold smap_at. simp_st. apply overlay_keeps_some. apply (im_entry _ _ I k Lk Hs Hr).
   (* ---- the monitor ---- *)
   - (* MonSub *)
     try match goal with H : mon_at _ _ = _ |- _ => rename H into Heqm end;
@@ -477,7 +546,12 @@ Proof.
 Qed.
 
 Lemma InvMon_reachable c s : reachable_sup c s -> InvMon c s.
-Proof. apply sup_inv; [apply InvMon_init|apply InvMon_step]. Qed.
+Proof.
+  intros H. enough (X : InvStm s /\ InvMon c s) by exact (proj2 X). revert s H.
+  apply sup_inv.
+  - split; [apply InvStm_init|apply InvMon_init].
+  - intros s l s' [A B] St. split; [eapply InvStm_step; eassumption|eapply InvMon_step; eassumption].
+Qed.
 
 (* ---- C06: convergence at quiescence ---- *)
 
